@@ -49,6 +49,12 @@ def run(ctx) -> None:
 
     ctx.rule("C02.equation", "finite evaluation: the equation parser/writer set net coefficients and direction as the string says", floor=2)
     ctx.guard(eqform.check_equation, ctx, "C02.equation")
+    from . import genesform
+
+    ctx.rule("C02.genes", "finite evaluation: update_genes_from_gpr links a reaction to the model's own gene objects for exactly the identifiers of its rule", floor=1)
+    n0, d0 = len(ctx.findings), len(ctx.deferred)
+    ctx.guard(genesform.check_update_genes, ctx, "C02.genes")
+    ctx.genes_clause_holds = len(ctx.findings) == n0 and len(ctx.deferred) == d0
     check_backref(ctx)
     check_attach(ctx)
     check_owner(ctx)
@@ -411,9 +417,39 @@ def check_owner(ctx) -> None:
                 ctx.ok("C02.owner", fn, st, f"inserted object(s) get `_model = {model_text or 'model'}` in the same operation")
             elif _reinsertion(ctx, fn, elem):
                 ctx.ok("C02.owner", fn, st, "re-insertion of an object this operation removed without clearing its pointer", nontrivial=False)
+            elif fn.short == "Reaction.update_genes_from_gpr" and _genes_clause_holds(ctx):
+                # the evaluated clause C02.genes decides ownership for this function (every gene the reaction ends up
+                # linked to belongs to the model, whichever statement hands it the pointer); the reading only explains
+                ctx.note(f"C02.owner: `{norm(st, 60)}` in update_genes_from_gpr sets no model pointer next to the insertion; the evaluated clause C02.genes finds every linked gene owned by the model")
             else:
                 ctx.bad("C02.owner", fn, st, f"objects are inserted into {e.cell} without setting their model pointer: a listed object then reports `model is None`")
     check_detached_adoption(ctx)
+
+
+def _genes_clause_holds(ctx) -> bool:
+    """Verdict of the evaluated clause C02.genes (run quietly when the calling rule set has not run it itself)."""
+    if not hasattr(ctx, "genes_clause_holds"):
+        from . import genesform
+
+        class _Probe:
+            prog = ctx.prog
+
+            def __init__(self):
+                self.failed = False
+
+            def bad(self, *a, **k):
+                self.failed = True
+
+            def ok(self, *a, **k):
+                pass
+
+        probe = _Probe()
+        try:
+            genesform.check_update_genes(probe, "C02.genes")
+            ctx.genes_clause_holds = not probe.failed
+        except Exception:  # noqa: BLE001 - not evaluable: the structural reading stays armed
+            ctx.genes_clause_holds = False
+    return ctx.genes_clause_holds
 
 
 def check_detached_adoption(ctx) -> None:
